@@ -273,6 +273,8 @@ class Resolver:
                 return {'HASH'}
             if nm in ('dict', 'json.load', 'json.loads'):
                 return {DICT}
+            if nm in ('copy.deepcopy', 'copy.copy', 'deepcopy') and e.args:
+                return self.etype(e.args[0], func)
             if nm in ('list', 'sorted'):
                 return {LIST}
             if nm in ('set', 'frozenset'):
